@@ -293,7 +293,7 @@ def parseAreaTemp (ctx : Ctx R) (kind : Nat) (corners : List (P2 R)) (model : St
   let op ← pmLift c.getOp
   match model with
   | "uniform" => return .uniform rng op (← pmLift (c.getNum "temperature")) (kind == 0)
-  | "linear" => return .linear rng op (← pmLift (c.getNum "top temperature")) (← pmLift (c.getNum "bottom temperature")) (kind == 0)
+  | "linear" => return .linear rng op (← pmLift (c.getNum "top temperature")) (← pmLift (c.getNum "bottom temperature"))
   | "adiabatic" => do
     let tp : R ← pmLift (c.getNum "potential mantle temperature")
     let al : R ← pmLift (c.getNum "thermal expansion coefficient")
